@@ -445,6 +445,26 @@ pub fn boundary_shapes(rng: &mut Rng) -> Vec<Prob> {
         out.push(Prob { P, q: (0..n).map(|j| if j % 2 == 0 || k % 2 == 0 { c } else { -c / 3.0 }).collect(), A: dense_to_csc(&rows, mrows, n), b,
                         cones: vec![NonnegativeConeT(mrows)], label: format!("huge linear cost eps={} c={}", eps, c), intent: 0 });
     }
+    // pure feasibility problems (P = 0, q = 0) over second-order and zero cones: the KKT starting
+    // point has z exactly 0 (and s = b - Ax on the cone rows), so the shift into the cone starts
+    // from the origin of a second-order block
+    for k in 0..4usize {
+        let n = 2 + k % 2;
+        let d = 3 + k % 3;
+        let mut rows: Vec<Vec<f64>> = vec![];
+        let mut b: Vec<f64> = vec![];
+        // one equality, then the block  (t0; x-part) in SOC(d) with t0 = 2 + sum x
+        if k >= 2 { rows.push((0..n).map(|j| 1.0 + j as f64).collect()); b.push(1.0); }
+        let neq = rows.len();
+        rows.push(vec![-1.0; n]); b.push(2.0);
+        for i in 1..d { let mut r = vec![0.0; n]; r[(i - 1) % n] = -1.0; rows.push(r); b.push(0.0); }
+        let m = rows.len();
+        let mut cones = vec![];
+        if neq > 0 { cones.push(ZeroConeT(neq)); }
+        cones.push(SecondOrderConeT(d));
+        out.push(Prob { P: CscMatrix::zeros((n, n)), q: vec![0.0; n], A: dense_to_csc(&rows, m, n), b, cones,
+                        label: format!("SOC feasibility, zero objective ({})", k), intent: 0 });
+    }
     // only empty cones
     out.push(Prob { P: eye(1), q: vec![1.0], A: CscMatrix::zeros((0, 1)), b: vec![], cones: vec![NonnegativeConeT(0), ZeroConeT(0)], label: "only empty cones".into(), intent: 0 });
     // SOC / PSD of dimension one
